@@ -412,3 +412,26 @@ def register(M):
     M('C10_substr', ['C10'], 'runner.py',
       "            if gather_all or command in example.valid_testnames:", "            if gather_all or any(command in n for n in example.valid_testnames):",
       'a named doctest is matched by substring (f1 also runs f10, f1:0 also f1:0x)')
+
+    # ---- C15 ---------------------------------------------------------------
+    M('C15_style', ['C15'], 'plugin.py',
+      "        modpath = str(self.fspath)\n\n        style = self.config.getvalue('xdoctest_style')",
+      "        modpath = str(self.fspath)\n\n        style = self.config.getvalue('xdoctest_style') if self.config.getvalue('xdoctest_style') != 'google' else 'auto'",
+      'plugin collects with style auto when google was asked for')
+    M('C15_anything_ran', ['C15'], ['plugin.py', 'doctest_example.py'],
+      ["        if not self.dtest.anything_ran():\n            pytest.skip('doctest is empty or all parts were skipped')\n",
+       "            if self.mode == 'pytest':\n                import pytest\n                pytest.skip()\n"],
+      ["", "            pass\n"],
+      'all-skipped doctests are reported as passed under pytest (both redundant skip signals removed)')
+    M('C15_options', ['C15'], 'plugin.py',
+      "        for dtest in examples:\n            dtest.config.update(self._examp_conf)\n", "        for dtest in examples:\n            dtest.config.update({k: v for k, v in self._examp_conf.items() if k != 'default_runtime_state'})\n",
+      '--xdoctest-options not propagated to module doctests')
+    M('C15_disabled', ['C15'], 'plugin.py',
+      "        if self.dtest.is_disabled(pytest=True):\n            pytest.skip('doctest encountered global skip directive')\n", "",
+      'force-disabled doctests are run under pytest')
+    M('C15_onerror', ['C15'], 'plugin.py',
+      "        self.dtest.run(on_error='raise')", "        self.dtest.run(on_error='return')",
+      'failures are not raised under pytest (every doctest passes)')
+    M('C15_native_opts', ['C15'], '__main__.py',
+      "    options = ns['options']\n    if options is None:", "    options = ns['options']\n    if options is not None and options.startswith('-'):\n        options = ns['options'] = options.replace('-', '+', 1)\n    if options is None:",
+      'native CLI turns a leading negative option into a positive one')
